@@ -657,7 +657,9 @@ def call_method(eng, st, recv: V, meth: str, pos, kw, node):
             return eng.call(st, recv.fields[meth], pos, kw, node)
         m = eng.registry.method_for(recv.cls, meth)
         if m is not None:
-            return m.apply(eng, st, [recv, *pos], kw, node)
+            if m.params and m.params[0][0] in ("self", "cls"):
+                return m.apply(eng, st, [recv, *pos], kw, node)
+            return m.apply(eng, st, list(pos), kw, node)   # a staticmethod reached through the instance
         if meth == "get" and pos and isinstance(pos[0], StrV) and z3.is_string_value(_simp(pos[0].t)):
             # SurveyElement.get(key[, default]) = getattr on the slot (Mapping over the object's slots)
             key = _simp(pos[0].t).as_string()
@@ -1392,6 +1394,10 @@ def _b_tuple(eng, st, pos, kw):
     items = concrete_items(eng, v)
     if items is not None:
         return [(st, TupleV(items))]
+    if isinstance(v, ListV):
+        return [(st, clone(v))]   # tuple(xs) of a symbolic sequence: same items (it is only iterated / tested afterwards)
+    if hasattr(v, "to_seq"):
+        return [(st, ListV(v.kind.elem, v.to_seq(v.kind)))]
     raise Unsupported(f"tuple({type(v).__name__})")
 
 
